@@ -1,6 +1,6 @@
 CONSTANTS
   SIZE = 3
-  MaxDepth = 3
+  MaxDepth = 5
   Gen = FALSE
   GenMod = 1
   Alphabet = "grid"
